@@ -258,8 +258,12 @@ def merge_dicts(dicts: list[T]) -> T:
         return dicts[0]
 
     elif any(not isinstance(dct, dict) for dct in dicts):
-        # For non-dicts, last value takes precedence.
-        return dicts[-1]
+        # A non-dict value replaces everything before it. The dicts after the
+        # last non-dict value (if any) are still merged with each other.
+        last = max(i for i, dct in enumerate(dicts) if not isinstance(dct, dict))
+        if last == len(dicts) - 1:
+            return dicts[-1]
+        return merge_dicts(dicts[last + 1 :])
 
     else:
         # Group by keys.
